@@ -117,8 +117,8 @@ QUATS = [rotation.R30[i] for i in (0, 9, 10, 12, 15)]
 # replay helpers (public API, real libraries)
 
 
-def replay_decode(T, K):
-    """sub-volume = template j rotated by searched rotation k: the model must report (j, k)."""
+def replay_decode(T, K, nonid=False):
+    """sub-volume = template j rotated by searched rotation k: the model must report (j, k).  nonid: K == 1 with a single non-identity rotation"""
 
     def run(cex):
         from acryo.alignment import ZNCCAlignment
@@ -135,10 +135,10 @@ def replay_decode(T, K):
                 c = rng.uniform(-3.5, 3.5, size=3)
                 t += np.exp(-((zz - c[0]) ** 2 + (yy - c[1]) ** 2 + (xx - c[2]) ** 2) / 3.0).astype(np.float32)
             temps.append(t)
-        angles = [(0, 0, 0), (25, 0, 0), (0, 35, 0), (0, 0, 45), (30, 30, 0)][:K]
+        angles = [(0, 0, 0), (25, 0, 0), (0, 35, 0), (0, 0, 45), (30, 30, 0)][:K] if not nonid else [(25, 0, 0)]
         from acryo.molecules import from_euler_xyz_coords
 
-        rots = Rotation.concatenate([from_euler_xyz_coords(np.array(a, dtype=float), "zyx", degrees=True) for a in angles]) if K > 1 else None
+        rots = Rotation.concatenate([from_euler_xyz_coords(np.array(a, dtype=float), "zyx", degrees=True) for a in angles]) if (K > 1 or nonid) else None
         model = ZNCCAlignment(temps if T > 1 else temps[0], rotations=rots)
         wrong = []
         quats = model.quaternions
@@ -151,8 +151,8 @@ def replay_decode(T, K):
                 sub = ndi.affine_transform(temps[j], mtx, order=3, mode="constant", cval=0.0)
                 res = model.align(sub, (1, 1, 1))
                 ok_rot = np.allclose(res.quat, quats[k], atol=1e-6) or np.allclose(res.quat, -quats[k], atol=1e-6)
-                if not ok_rot or (res.label % max(T, 1) if K > 1 else res.label) != j:
-                    wrong.append({"template": j, "rotation": k, "label": int(res.label), "quat_ok": bool(ok_rot)})
+                if not ok_rot or (res.label % max(T, 1) if K > 1 else res.label) != j or (nonid and float(res.score) < 0.9):
+                    wrong.append({"template": j, "rotation": k, "label": int(res.label), "quat_ok": bool(ok_rot), "score": float(res.score)})
         return len(wrong) > 0, {"T": T, "K": K, "wrong": wrong[:6], "n_wrong": len(wrong), "of": T * K}
 
     return run
@@ -162,7 +162,7 @@ def replay_decode(T, K):
 # (a) ordering lemma
 
 
-def sec_ordering(rec, T=2, K=2, patches=None):
+def sec_ordering(rec, T=2, K=2, nonid=False, patches=None):
     L = _load(patches)
     B, xp, ndi = _setup(L, T, K)
     U = L["acryo._utils"]
@@ -172,12 +172,13 @@ def sec_ordering(rec, T=2, K=2, patches=None):
     rec.assume("scipy.ndimage.spline_filter / affine_transform are recorded, not evaluated (which template and which matrix reach them is what is checked)")
     calls = [0]
     Model = _model_class(L, calls)
-    quats = [list(q) for q in QUATS[:K]]
-    tag = f"ordering[T={T},K={K}]"
+    quats = [list(q) for q in QUATS[:K]] if not nonid else [list(QUATS[1])]
+    tag = f"ordering[T={T},K={K}{',single-non-identity-rotation' if nonid else ''}]"
+    rotated = K > 1 or nonid  # the candidates must be rotated copies unless the only rotation is the identity
 
     def run():
         temps = _templates(T)
-        rots = rotation.SymRotation(quats) if K > 1 else None
+        rots = rotation.SymRotation(quats) if rotated else None
         m = Model(temps if T > 1 else temps[0], None, rots)
         tmpl, mask = m._template_mask_cache.get(xp)
         return m, tmpl, mask
@@ -202,10 +203,11 @@ def sec_ordering(rec, T=2, K=2, patches=None):
             rec.fact(f"{tag}/cand{i}/is-pre_transformed", False, key="C06/ordering/pre_transform", detail={"got": repr(c)})
             continue
         inner = c.parts[0]
-        if K > 1:
+        if rotated:
             ok = isinstance(inner, stubs.Sampled) and inner.kind == "affine_transform" and isinstance(inner.src, stubs.Sampled) and inner.src.kind == "spline_filter"
             if not ok:
-                rec.fact(f"{tag}/cand{i}/structure", False, key="C06/ordering/structure", detail={"got": repr(inner)})
+                rec.fact(f"{tag}/cand{i}/is-the-template-rotated-by-its-candidate-rotation", False, key="C06/ordering/structure" + ("[single-non-identity]" if nonid else ""), detail={"got": repr(inner)[:200]},
+                         reproduced=replay_decode(T, K, nonid)({})[0] if nonid else "auto")
                 continue
             j_got = _template_index(inner.src.src, T)
             want_m = U.compose_matrices(center, [rotation.SymRotation(quats[k_want]).inv()])[0]
@@ -683,6 +685,8 @@ def sec_normalize(rec, patches=None):
 def sections(tier):
     S = [("normalize", "checks.c06", "sec_normalize", {})]
     tmax = 3 if quick(tier) else 4
+    for T in (1, 2):
+        S.append((f"ordering-T{T}K1-nonid", "checks.c06", "sec_ordering", {"T": T, "K": 1, "nonid": True}))
     for T in range(1, tmax + 1):
         for K in range(1, tmax + 1):
             S.append((f"ordering-T{T}K{K}", "checks.c06", "sec_ordering", {"T": T, "K": K}))
@@ -703,6 +707,8 @@ def sections(tier):
 _B = "acryo.alignment._base"
 _LB = "acryo.loader._base"
 MUTANTS = [
+    ("single-non-identity-rotation-not-applied (defect fixed by 'fix: a single non-identity rotation is applied to the template')", "checks.c06", "sec_ordering", {"T": 1, "K": 1, "nonid": True},
+     {_B: [("if self._n_rotations > 1 or not _is_identity(self.quaternions):", "if self._n_rotations > 1:")]}),
     ("decode:mod-rotations", "checks.c06", "sec_decode", {"T": 2, "K": 3}, {_B: [("quat = self.quaternions[iopt // self._n_templates]", "quat = self.quaternions[iopt % self._n_rotations]")]}),
     ("decode:argmin", "checks.c06", "sec_decode", {"T": 1, "K": 3}, {_B: [("        iopt = int(np.argmax(all_score))", "        iopt = int(np.argmin(all_score))")]}),
     ("decode:shift-of-last", "checks.c06", "sec_decode", {"T": 2, "K": 2}, {_B: [("return AlignmentResult(iopt, all_shifts[iopt], all_quat[iopt], all_score[iopt])", "return AlignmentResult(iopt, all_shifts[-1], all_quat[iopt], all_score[iopt])")]}),
